@@ -1,8 +1,12 @@
 """C08 — integration, norms and Gram matrices form a consistent L2 geometry."""
 from fractions import Fraction
 
+import os
+
 import numpy as np
 
+import c08_translate
+import common
 from common import F, Rng, close, close_all, err_class, fl, mat, pmat, pvec, rs, vec
 
 PROP = "C08"
@@ -19,7 +23,46 @@ PARTIAL = [
     "scipy.integrate.simpson is external: only linearity of the simpson route is sampled",
     "square roots (norm, squared=False) are compared through their squares",
 ]
-TRUSTED_EXTRA = []
+TRUSTED_EXTRA = [
+    "harness/c08_translate.py: syntactic map of the two branches of utils._integration_weights onto the NumPy combinators "
+    "of lean/FDAModel/Core/NpVec.lean (single, slice, sub, smul, divc, concat, enumMap), whose definitions state what "
+    "those NumPy operations mean",
+]
+GEN_FILE = os.path.join(common.LEAN_DIR, "FDAModel", "Generated", "QuadWeights.lean")
+TRANSLATOR_NOTE = None
+
+
+def translate():
+    """Regenerate Generated/QuadWeights.lean from what `_integration_weights` says now.  A source whose shape the
+    translator does not recognise (a refactor) is NOT an alarm: the reference translation is used and the evidence says
+    that for this run the weights are tied to the source by the correspondence only.  Only a successful translation
+    can break `C08.trapzW_src_eq_model` / `C08.simpsonW_src_eq_model`."""
+    global TRANSLATOR_NOTE
+    path = os.path.join(common.REPO, "FDApy", "misc", "utils.py")
+    try:
+        src = c08_translate.lean_source(path)
+    except (ValueError, SyntaxError, IndexError, AttributeError, KeyError, TypeError) as e:
+        # fall back on the translation of the source this machinery was built against (kept beside the translator), not on
+        # whatever an earlier run left in the generated file
+        TRANSLATOR_NOTE = f"translator: shape of _integration_weights not recognised, tie rests on the correspondence only ({e})"
+        print("note:", TRANSLATOR_NOTE)
+        src = open(os.path.join(os.path.dirname(os.path.abspath(__file__)), "c08_quadweights_reference.lean")).read()
+        if not os.path.exists(GEN_FILE) or open(GEN_FILE).read() != src:
+            with open(GEN_FILE, "w") as fh:
+                fh.write(src)
+        return
+    except OSError as e:
+        raise common.InfraError(f"translator: cannot read {path}: {e}")
+    TRANSLATOR_NOTE = ("translator: quadrature weights regenerated from the source and re-proved equal to the model "
+                       "(C08.trapzW_src_eq_model, C08.simpsonW_src_eq_model)")
+    old = open(GEN_FILE).read() if os.path.exists(GEN_FILE) else None
+    if old != src:
+        with open(GEN_FILE, "w") as fh:
+            fh.write(src)
+
+
+def extra_coverage(cases, impls, models):
+    return dict(translator=TRANSLATOR_NOTE)
 
 
 def _dense(t_list, X):
@@ -100,6 +143,19 @@ def gen_cases(rng: Rng, tier):
             spike[j] = rs(rng.dyadic(1, 8, 2))
             other = [rs(abs(rng.dyadic(-2, 2, 2))) for _ in tg]
             yield dict(kind="trapz", t=tg, y=spike, y2=other, a=rs(rng.dyadic(-4, 4, 2)), b=rs(rng.dyadic(-4, 4, 2)), ck="spike")
+    # grids far from the origin relative to their step (time stamps in seconds sampled at 1 kHz, Julian dates, large
+    # offsets): all exact floats; weights and integrals must not lose the ratio |t|/step
+    for lo, step in [(1700000000, Fraction(1, 2**10)), (1700000000, Fraction(1, 2**22)), (2460000, Fraction(1, 2**31)),
+                     (2**31, Fraction(1, 2**21)), (-(2**27), Fraction(1, 2**25)), (2**40, Fraction(1, 2**12)),
+                     (1700000000, Fraction(1, 1000)), (2460000, Fraction(1, 86400))]:
+        m = rng.randint(5, 14)
+        ks = sorted(rng.sample(range(0, 8 * m), m))
+        # exactly the floats NumPy will see (the decimal steps round to the full 53-bit mantissa, as real time stamps do)
+        tg = [rs(Fraction(float(Fraction(lo) + k * step))) for k in ks]
+        yield dict(kind="weights", t=tg, cubic=["1", "0", "0", "0"])
+        ys = _curves0(rng, 2, m, "rand")[0]
+        yield dict(kind="trapz", t=tg, y=[rs(x) for x in ys[0]], y2=[rs(abs(x)) for x in ys[1]],
+                   a=rs(rng.dyadic(-4, 4, 2)), b=rs(rng.dyadic(-4, 4, 2)), ck="far_offset")
     for k in range(n):
         kind = kinds[k % len(kinds)]
         if kind == "weights":
@@ -479,6 +535,20 @@ def _cmp_vec(name, fs, qs, scale=None, rtol=1e-9):
     return [f"{name}[{i}]: impl {list(fs)[i]!r} vs exact {float(list(qs)[i])!r}"]
 
 
+def _cmp_weights(name, fs, qs, rtol=1e-13):
+    """Quadrature weights, entry by entry and RELATIVE TO THE WEIGHT ITSELF.  The grids are exact floats, a weight is
+    a difference of two of them times a constant: one correctly rounded subtraction (relative error 2^-53 whatever the
+    distance of the grid from the origin) and at most two more roundings.  A formula that rounds at the magnitude of
+    the abscissae (midpoints, cumulative sums) loses |t|/step of that and is not the same weight."""
+    fs, qs = list(fs), list(qs)
+    if len(fs) != len(qs):
+        return [f"{name}: length {len(fs)} vs model {len(qs)}"]
+    for i, (f, q) in enumerate(zip(fs, qs)):
+        if not close(f, q, abs(q), rtol):
+            return [f"{name}[{i}]: impl {f!r} vs exact {float(q)!r} (relative to the weight)"]
+    return []
+
+
 def compare(case, impl, model):
     if "__crash__" in impl:
         return [f"implementation crashed: {impl['__crash__']} {impl.get('msg')}"]
@@ -487,9 +557,9 @@ def compare(case, impl, model):
     if kind == "weights":
         if model["w"] in ("error", "bad"):
             return [f"model rejects the grid: {model['w']}"]
-        ds += _cmp_vec("weights", impl["w"], pvec(model["w"]))
+        ds += _cmp_weights("weights", impl["w"], pvec(model["w"]))
         if model.get("sw"):
-            ds += _cmp_vec("simpson weights", impl["sw"], pvec(model["sw"]))
+            ds += _cmp_weights("simpson weights", impl["sw"], pvec(model["sw"]))
     elif kind == "trapz":
         names = ["v", "v2", "vlin", "ip", "aff"]
         for nm, (q, sc) in zip(names, model["vals"]):
@@ -609,7 +679,8 @@ def oracle(case, impl):
                 bad("linear", f"simpson: I(f+g) = {impl['s_abssum']} but I(f)+I(g) = {impl['s_abs'] + impl['s_abs2']} for non-negative f, g", "_integrate")
         if not _approx(impl["wsum"], impl["v"], sc):
             bad("weights", f"sum(w*y) = {impl['wsum']} differs from the integral {impl['v']}", "_integration_weights")
-        exact = a * (t[-1] ** 2 - t[0] ** 2) / 2 + b * (t[-1] - t[0])
+        t0q, t1q = F(case["t"][0]), F(case["t"][-1])   # exact arithmetic: t1^2 - t0^2 cancels badly in floats far from 0
+        exact = float(F(case["a"]) * (t1q * t1q - t0q * t0q) / 2 + F(case["b"]) * (t1q - t0q))
         if not _approx(impl["aff"], exact, (abs(a) * max(abs(t[0]), abs(t[-1])) + abs(b)) * (t[-1] - t[0]) + 1e-300):
             bad("exact_linear", f"integral of affine integrand {impl['aff']} vs exact {exact}", "_integrate")
     elif kind == "int2":
